@@ -174,6 +174,71 @@ def gen_cases(chk, mags, fixbits, scale):
         add("bits->list", (a,), (rng.choice([0, 1, 63, 64, 65, 128, abs(a).bit_length(), abs(a).bit_length() + rng.randint(0, 70)]),), tag="list")
         n = rng.choice([0, 1, 61, 62, 63, 64, 65, 127, 128, 129, rng.randint(0, 260)])
         add("list->bits", (), [rng.choice([0, 1, 1]) for _ in range(n)], tag="list")
+    # 9b. sparse words (see numcommon): fixed extremal shapes and a seeded slice in the quick tier, the full cross product
+    #     with every two-term sum / difference in the thorough tier; both signs; sparse x dense, sparse x fixnum
+    SF = nc.sparse_fixed()
+    SFs = [v for m in SF for v in (m, -m)]
+    SR = nc.sparse_random(rng, int((3000 if T else 300) * scale) + 20)
+    SRs = [m * rng.choice((1, -1)) for m in SR]
+    SP = nc.sparse_pairs() if T else []
+    SPs = [v for m in SP for v in (m, -m)]
+    right32 = nc.word_counts(4, 32)                       # ..., 31, 32, 33, 63, 64, 65, ... 257
+    all8 = nc.word_counts(4, 8)
+    pos = nc.sparse_positions(5)
+    sfix = [1 << 32, (1 << 32) - 1, -(1 << 32), 1 << 31, -(1 << 31), 0xFFFF0000, -0xFFFF0000, (1 << 61) + (1 << 31), -((1 << 61) + (1 << 31)),
+            (1 << 62) - (1 << 32), -(1 << 62), 1, -1, 0xFF, -0x100]
+    for a in SFs:
+        # quick: the whole-half-word counts always, plus a seeded slice of the +-1 neighbours
+        for c in (all8 if T else [32, 64, 96, 128, 192, 256] + rng.sample(right32, 4)):
+            add("arithmetic-shift", (a,), (-c,), tag="sparse-shift")
+        for c in (all8 if T else rng.sample(right32, 2)):
+            add("arithmetic-shift", (a,), (c,), tag="sparse-shift")
+        for op in OPS1:
+            add(op, (a,), tag="sparse-unary")
+    for a in SRs:
+        for c in rng.sample(all8, 8):
+            add("arithmetic-shift", (a,), (-c,), tag="sparse-shift")
+        add("arithmetic-shift", (a,), (rng.choice(all8),), tag="sparse-shift")
+        for op in OPS1:
+            add(op, (a,), tag="sparse-unary")
+    for a in SPs:
+        for c in right32:
+            add("arithmetic-shift", (a,), (-c,), tag="sparse-shift")
+        add(rng.choice(OPS1), (a,), tag="sparse-unary")
+    for i in range(int((40000 if T else 3500) * scale)):
+        a = rng.choice(SFs) if rng.random() < 0.6 else rng.choice(SRs)
+        r = rng.random()
+        if r < 0.35:
+            b = rng.choice(SFs + SRs)
+        elif r < 0.7:
+            b = words_int(rng, rng.randint(1, 5), rng.choice(["rand", "mixed"])) * rng.choice((1, -1))
+        else:
+            b = rng.choice(sfix)
+        if rng.random() < 0.5:
+            a, b = b, a
+        add(rng.choice(OPS2), (a, b), tag="sparse-pair")
+    for i in range(int((40000 if T else 3500) * scale)):
+        a = rng.choice(SFs) if rng.random() < 0.6 else rng.choice(SRs)
+        s0 = rng.choice(pos)
+        e0 = rng.choice([p for p in pos if p >= s0] + [s0 + 32, s0 + 64])
+        r = rng.random()
+        if r < 0.4:
+            add(rng.choice(FIELD1), (a,), (s0, e0), tag="sparse-field")
+        elif r < 0.55:
+            add(rng.choice(FIELD2), (a, rng.choice(SFs + SRs + sfix)), (s0, e0), tag="sparse-field")
+        elif r < 0.7 and e0 > s0:
+            add("bit-field-rotate", (a,), (rng.choice([1, -1, 8, 16, 31, 32, 33, 64, e0 - s0 - 1]), s0, e0), tag="sparse-field")
+        elif r < 0.8:
+            add("bit-set?", (a,), (s0,), tag="sparse-bit")
+        elif r < 0.9:
+            add("copy-bit", (a,), (s0, rng.randint(0, 1)), tag="sparse-bit")
+        else:
+            add("bit-swap", (a,), (s0, e0), tag="sparse-bit")
+    for i in range(int((4000 if T else 300) * scale)):
+        add("bitwise-if", (rng.choice(SFs + SRs), rng.choice(SFs + SRs + sfix), rnd()), tag="sparse-if")
+        add("bits->list", (rng.choice(SFs),), (rng.choice(pos),), tag="sparse-list")
+    for c in [c for c in cases if c.tag in ("sparse-shift", "sparse-unary")][::9]:
+        cases.append(Case("pad:" + c.op, c.a, c.k, "", "spare-words"))
     # 10. the same calls on operands stored with spare most significant words (every 3rd case of the deterministic groups)
     for c in [c for c in cases if c.a and c.tag in ("fixed-pair", "fixed-field", "fixed-bit", "fixed-unary", "fixed-shift", "fixed-if", "fixed-list", "lattice-unary")][::3]:
         cases.append(Case("pad:" + c.op, c.a, c.k, "", "spare-words"))
